@@ -120,8 +120,14 @@ class Labels:
         """labels -> ints preserving the order of classes_ (ints stay themselves)."""
         if self.kind == "str-none":
             lut = {c: i for i, c in enumerate(list(classes_))}
-            return [lut[l] for l in labels]
-        return [int(l) for l in labels]
+            return [lut.get(l, -999) for l in labels]       # -999: not a class label at all (reported by the oracle)
+        out = []
+        for l in labels:
+            try:
+                out.append(int(l))
+            except (TypeError, ValueError):
+                out.append(-999)
+        return out
 
 
 def gen_cost(rng, k, p=0.5):
@@ -374,7 +380,12 @@ def case_freq(ctx, lines, expect, cfg):
     ctx.count("freq_rows_zero", int(np.sum((F + clf.class_prior_).sum(axis=1) == 0)))
     ctx.count("kind_freq")
     oracle_proba(ctx, "ClassFrequencyEstimator", P, n, k, cfg)
-    y_pred, costs, noise, _, Pu = run_predict(ctx, clf, Xq, cfg["seed"])
+    try:
+        y_pred, costs, noise, _, Pu = run_predict(ctx, clf, Xq, cfg["seed"])
+    except Exception as ex:
+        viol(ctx, type(clf).__name__ if type(clf).__name__ != "TableFreq" else "ClassFrequencyEstimator", "predict", "raises",
+             f"predict raised {type(ex).__name__}: {ex}", cfg)
+        return
     P = P if Pu is None else Pu
     oracle_predict(ctx, "ClassFrequencyEstimator", y_pred, P, clf.cost_matrix_, clf.classes_, cfg)
     decision_lines(ctx, lines, expect, lab, clf.classes_, y_pred, costs, noise, P, clf.cost_matrix_, cfg, "freq")
@@ -487,7 +498,12 @@ def case_pwc(ctx, lines, expect, cfg):
     if not has_labels(cfg) and np.all(np.asarray(prior) == 0) and ok:
         oracle_uniform(ctx, "ParzenWindowClassifier", P, k, cfg)
         ctx.count("no_labels_uniform_checked")
-    y_pred, costs, noise, _, Pu = run_predict(ctx, clf, Xq, cfg["seed"])
+    try:
+        y_pred, costs, noise, _, Pu = run_predict(ctx, clf, Xq, cfg["seed"])
+    except Exception as ex:
+        viol(ctx, type(clf).__name__ if type(clf).__name__ != "TableFreq" else "ClassFrequencyEstimator", "predict", "raises",
+             f"predict raised {type(ex).__name__}: {ex}", cfg)
+        return
     P = P if Pu is None else Pu
     if ok:
         oracle_predict(ctx, "ParzenWindowClassifier", y_pred, P, clf.cost_matrix_, clf.classes_, cfg)
@@ -630,7 +646,12 @@ def case_mmc(ctx, lines, expect, cfg):
     if not has_labels(cfg) and np.all(np.asarray(prior) == 0) and ok:
         oracle_uniform(ctx, "MixtureModelClassifier", P, k, cfg)
         ctx.count("no_labels_uniform_checked")
-    y_pred, costs, noise, _, Pu = run_predict(ctx, clf, Xq, cfg["seed"])
+    try:
+        y_pred, costs, noise, _, Pu = run_predict(ctx, clf, Xq, cfg["seed"])
+    except Exception as ex:
+        viol(ctx, type(clf).__name__ if type(clf).__name__ != "TableFreq" else "ClassFrequencyEstimator", "predict", "raises",
+             f"predict raised {type(ex).__name__}: {ex}", cfg)
+        return
     P = P if Pu is None else Pu
     if ok:
         oracle_predict(ctx, "MixtureModelClassifier", y_pred, P, clf.cost_matrix_, clf.classes_, cfg)
@@ -1129,7 +1150,12 @@ def case_alr(ctx, lines, expect, cfg):
     if not has_labels(cfg) and ok:
         oracle_uniform(ctx, "AnnotatorLogisticRegression", P, k, cfg)
         ctx.count("no_labels_uniform_checked")
-    y_pred, costs, noise, _, Pu = run_predict(ctx, clf, Xq, cfg["seed"])
+    try:
+        y_pred, costs, noise, _, Pu = run_predict(ctx, clf, Xq, cfg["seed"])
+    except Exception as ex:
+        viol(ctx, type(clf).__name__ if type(clf).__name__ != "TableFreq" else "ClassFrequencyEstimator", "predict", "raises",
+             f"predict raised {type(ex).__name__}: {ex}", cfg)
+        return
     P = P if Pu is None else Pu
     if ok:
         oracle_predict(ctx, "AnnotatorLogisticRegression", y_pred, P, clf.cost_matrix_, clf.classes_, cfg)
@@ -1220,7 +1246,7 @@ def correspond(ctx):
     lines, expect = [], []
     for cfg in fixed_cases():
         run_case(ctx, lines, expect, cfg)
-    n_rand = 700 if not ctx.thorough else 9000
+    n_rand = 2500 if not ctx.thorough else 36000
     for _ in range(n_rand):
         run_case(ctx, lines, expect, gen_any(rng))
     if ctx.thorough:
